@@ -34,6 +34,33 @@ DESC = {
  "C14-c14b1": ("InnerWeights memo claimed under a mutex, filled after releasing it (race-free)", "two threads whose first InnerWeights-family call overlaps: the second returns a zero matrix", "sub-agent seed-c14b, round 1"),
  "C14-c14b2": ("SGal3 rjac/ljac single-entry memos guarded by hand-written spin locks taken in opposite orders", "SGal3, two threads missing both memos at the same moment: both spin for ever", "sub-agent seed-c14b, round 1"),
  "C14-c14b3": ("singleton memo of the last rminus in interpolate; holds()/get() lock individually (race-free)", "threads concurrently interpolating different pairs of the same group type", "sub-agent seed-c14b, round 1"),
+ "C14-r2c14_1": ("detail::raise() copies the message into a process-wide static char[256] ('last error') before throwing", "two threads throwing concurrently (Generator(bad i), interpolate(t outside [0,1]), empty average ...)", "sub-agent seed-r2c14, round 2 (adversarial)"),
+ "C14-r2c14_2": ("unsynchronised drift statistics updated inside the renormalisation branch of SO3 compose", "operands accepted by the library but ~0.6 eps off the unit sphere, so that the branch is taken, in two threads", "sub-agent seed-r2c14, round 2 (adversarial)"),
+ "C14-r2c14_3": ("BundleTangent::hat() assembles its result in a function-local static matrix", "two threads in hat() of the same Bundle type (nothing inside the library calls it)", "sub-agent seed-r2c14, round 2 (adversarial)"),
+ "C09-r2c09_1": ("one-entry thread_local sin/cos memo shared between float and double instantiations", "a float call immediately followed by a double call with a bit-identical angle (dyadic angle about one axis)", "sub-agent seed-r2c09, round 2 (adversarial)"),
+ "C09-r2c09_2": ("SO3 compose returns early (skipping the renormalisation) when no Jacobian is requested", "a product whose squared norm is more than eps from 1 (operand inside the acceptance band)", "sub-agent seed-r2c09, round 2 (adversarial)"),
+ "C09-r2c09_3": ("average_biinvariant: `static const Scalar w` freezes 1/N to the first container size of the process", "an earlier average over a container of another size, first in the process", "sub-agent seed-r2c09, round 2 (adversarial)"),
+ "C09-r2c09_4": ("SE2 rminus fills both Jacobians in one pass with a sign slip in the Taylor branch of Jl^-1", "relative heading below 1.5e-7 (double) with a non-tiny relative translation; only J_t_mb alone vs with J_t_ma", "sub-agent seed-r2c09, round 2 (adversarial)"),
+ "C10-r2c10_1": ("in-place SE3 operator*= (translation written before the right operand's quaternion is read)", "right-hand view partially overlapping the destination view in one buffer", "sub-agent seed-r2c10, round 2 (adversarial)"),
+ "C10-r2c10_2": ("Map<SO3> caches an 'is normalised' flag reset only by writes through the view", "long-lived view; buffer changed behind it; normalize()", "sub-agent seed-r2c10, round 2 (adversarial)"),
+ "C10-r2c10_3": ("SO3/SE3 converting constructors renormalise when |sqnorm-1|>eps instead of copying", "owning object constructed (not assigned) from a view over de-normalised data, NDEBUG build", "sub-agent seed-r2c10, round 2 (adversarial)"),
+ "C10-r2c10_4": ("16-byte aligned fast path in normalize() without Eigen's zero-norm guard", "normalize() of an all-zero rotation part; view and owning object in different alignment classes", "sub-agent seed-r2c10, round 2 (adversarial)"),
+ "C08-r2c08_1": ("decasteljau pre-sizes its output as n_segments*k*degree and fills it by index, ignoring the degree==2 case", "decasteljau(..., degree = 2, ...): half of the returned curve is default-constructed elements", "sub-agent seed-r2c08, round 2 (adversarial)"),
+ "C08-r2c08_2": ("SO3 log hemisphere chosen by w/abs(w)", "rotation part with w exactly +-0 (SO3d(1,0,0,0), two exact quarter turns): log / minus / interpolate / averages return NaN", "sub-agent seed-r2c08, round 2 (adversarial)"),
+ "C08-r2c08_3": ("interpolate_smooth gains MANIF_ASSERT(0 <= phi <= 1); the expanded polynomial overshoots 1 by a few ulp near t = 1", "assertion build, CNSMOOTH with t close to 1 (3.9e-5 of uniform t)", "sub-agent seed-r2c08, round 2 (adversarial)"),
+ "C08-r2c08_4": ("Tangent /= s implemented as *= 1/s", "a subnormal divisor (1/s overflows although t/s is finite)", "sub-agent seed-r2c08, round 2 (adversarial)"),
+ "C03-r2c03_1": ("SE3 log small-angle shortcut t - 0.5 w x t for angles below 1e-4 (drops theta^2/12)", "SE3 double, angle near 1e-4: relative translation error 8e-10 (baseline 1e-12 there)", "sub-agent seed-r2c03, round 2 (adversarial)"),
+ "C03-r2c03_2": ("SO3 log branch-free hemisphere sign atan2(sgn(w) s, sgn(w) c)", "w == 0 exactly (+0: log = 0, -0: |log| = 2 pi)", "sub-agent seed-r2c03, round 2 (adversarial)"),
+ "C03-r2c03_3": ("SE2 log through cot(theta/2) = (1+cos)/sin evaluated from the stored complex number", "rotation part stored exactly as (-1, +-0): NaN; accuracy loss (5e-9) within 1e-4 of pi", "sub-agent seed-r2c03, round 2 (adversarial)"),
+ "C03-r2c03_4": ("SO3 log(J) small-angle fast path without the hemisphere sign (only when a Jacobian is requested)", "w<0 element within 3e-7 rad of the identity AND the Jacobian overload", "sub-agent seed-r2c03, round 2 (adversarial)"),
+}
+
+
+NOTES = {
+ "C10-r2c10_1": "NOT DETECTED, deliberately not attempted: the change only shows when the right-hand view partially overlaps the "
+                "destination view inside one buffer.  Views that overlap each other are outside the property's quantifier (user buffers with "
+                "guard zones); plain `Map = Map` on overlapping buffers is not overlap-safe on the pinned tree either (Eigen assumes no aliasing), "
+                "so a model of what overlapping views 'should' do would have to be invented.  Recorded as a known blind spot in DESIGN.md section 12.",
 }
 
 
@@ -59,6 +86,8 @@ def main():
                             violation_classes=det["violation_classes"], minimised=det["minimised"], summary=det["summary"])
                        if det else "pending"),
         )
+        if ident in NOTES:
+            meta["note"] = NOTES[ident]
         json.dump(meta, open(os.path.join(d, "meta.json"), "w"), indent=1)
         print(ident, "confirmed" if ver and ver.get("confirmed") else "unconfirmed", "detected" if det and det["detected"] else "?")
 
